@@ -18,7 +18,7 @@ CONSTANTS Part,          \* "layout" | "pp" | "filter"
           NameIds,       \* layout: subset of 1..10, the field-name slots in use (see NameClass)
           ValueClasses,  \* layout: subset of AllValueClasses
           MaxExtra,      \* layout: at most this many fields besides the six reserved ones (0..3)
-          TripleMode,    \* layout: "full" = every value assignment for three extra fields, "rot" = 8 rotations only
+          TripleMode,    \* layout: how many value assignments for three extra fields: "full" | "pair" | "rot"
           MaxLines       \* pp / filter: streams of 1..MaxLines lines
 
 VARIABLES case, pos, out, done
@@ -54,9 +54,14 @@ ValueSeq == <<"short", "multiline", "tabs", "nested", "number", "bool", "null", 
 
 (* An abstract message: which "first" fields it has, and a function  name slot -> value class  for the others.      *)
 NameSets == {S \in SUBSET NameIds : Cardinality(S) <= MaxExtra}
+VIdx(v) == CHOOSE i \in DOMAIN ValueSeq : ValueSeq[i] = v
 Rot(S, k) == LET s == AscSeq(S) IN [n \in S |-> ValueSeq[((k + (CHOOSE i \in DOMAIN s : s[i] = n)) % 8) + 1]]
+(* three extra fields: "full" = all 8^3 value assignments; "pair" = all 8^2 assignments of the first two names, the      *)
+(* third determined by them (every pair of classes meets on adjacent fields); "rot" = the 8 rotations of ValueSeq        *)
 ExtrasOver(S) == IF Cardinality(S) = 3 /\ TripleMode = "rot"
                  THEN {f \in {Rot(S, k) : k \in 0..7} : \A n \in S : f[n] \in ValueClasses}
+                 ELSE IF Cardinality(S) = 3 /\ TripleMode = "pair"
+                 THEN LET s == AscSeq(S) IN {f \in [S -> ValueClasses] : f[s[3]] = ValueSeq[((VIdx(f[s[1]]) + VIdx(f[s[2]])) % 8) + 1]}
                  ELSE [S -> ValueClasses]
 Messages == {[first |-> F, extras |-> E] : F \in SUBSET Range(FirstOrder), E \in UNION {ExtrasOver(S) : S \in NameSets}}
 
